@@ -35,7 +35,7 @@ func failEnvs(c *Ctx, n int) []rt.Env {
 func c12(c *Ctx) {
 	c.Rep.TieObs = []string{"O-render with fault plans: returned error class and the Write-call log of the destination"}
 	c.Rep.Rule = "generated call graphs with failing sites (dynamic expressions returning an error, helpers given unsupported values, nested templates and children blocks containing such sites) x environments choosing which expressions fail x writer plans (every Write call failing or short); oracle on the real program: a failing site => non-nil error of the right cause and an empty Write log (the final write excepted), nil error => exactly the complete document; distinct = distinct (template, environment, plan); non-trivial = a site failed or a writer plan was active"
-	o := gen.Opts{ObjRefs: true, ClassExprs: true, NonASCII: false, MaxDepth: 3, FailSites: true, RenderHeavy: true}
+	o := gen.Opts{ObjRefs: true, ClassExprs: true, AttributesCmd: true, NonASCII: false, MaxDepth: 3, FailSites: true, RenderHeavy: true}
 	var cases []*RenderCase
 	for i := 0; i < c.N(2, 30); i++ {
 		f := gen.GenFile(newRand(c.R.Int63()), o, 3, c.N(20, 30))
